@@ -952,6 +952,41 @@ func (in *inliner) processStmt(s ast.Stmt, stack []*types.Func, sites []token.Po
 		return []ast.Stmt{x}
 	case *ast.GoStmt:
 		in.processFuncLits(x.Call, stack, sites)
+		// go h(a, b) with h new: the arguments are evaluated here, the body runs in the goroutine
+		//   ga := a; gb := b; go func() { h(ga, gb) }()   and h is inlined inside the literal
+		if fn, fd := in.calleeOfCall(x.Call); fn != nil && !onStack(stack, fn) && inlinableBody(fd) == "" && !x.Call.Ellipsis.IsValid() {
+			if sig := fn.Type().(*types.Signature); !sig.Variadic() && sig.Params().Len() == len(x.Call.Args) {
+				var pre []ast.Stmt
+				ok := true
+				for i := range x.Call.Args {
+					if in.containsInlinable(x.Call.Args[i], stack) {
+						ok = false
+					}
+				}
+				if ok {
+					for i := range x.Call.Args {
+						switch a := ast.Unparen(x.Call.Args[i]).(type) {
+						case *ast.BasicLit:
+							continue // a constant stays where it is (its type is decided by the parameter)
+						case *ast.Ident:
+							if a.Name == "nil" || a.Name == "true" || a.Name == "false" {
+								continue
+							}
+						}
+						in.n++
+						nm := fmt.Sprintf("goarg_i%d", in.n)
+						pre = append(pre, &ast.AssignStmt{Lhs: []ast.Expr{ast.NewIdent(nm)}, Tok: token.DEFINE, Rhs: []ast.Expr{x.Call.Args[i]}})
+						x.Call.Args[i] = ast.NewIdent(nm)
+					}
+				}
+				if ok {
+					body := &ast.BlockStmt{List: in.processStmt(&ast.ExprStmt{X: x.Call}, stack, sites)}
+					x.Call = &ast.CallExpr{Fun: &ast.FuncLit{Type: &ast.FuncType{Params: &ast.FieldList{}}, Body: body}}
+					in.changed = true
+					return append(pre, x)
+				}
+			}
+		}
 		return []ast.Stmt{x}
 	case *ast.DeferStmt:
 		in.processFuncLits(x.Call, stack, sites)
